@@ -286,7 +286,7 @@ impl<'a> Model<'a> {
                     if let Node::ReferenceKind { .. } = arg {
                         // Do nothing
                         count += 1.0;
-                    } else if let Ok(t) = s.parse::<f64>() {
+                    } else if let Some(t) = s.parse::<f64>().ok().filter(|t| t.is_finite()) {
                         sum += t;
                         count += 1.0;
                     } else {
@@ -338,7 +338,8 @@ impl<'a> Model<'a> {
                     result += 1.0;
                 }
                 CalcResult::String(s)
-                    if !matches!(arg, Node::ReferenceKind { .. }) && s.parse::<f64>().is_ok() =>
+                    if !matches!(arg, Node::ReferenceKind { .. })
+                        && s.parse::<f64>().map(|t| t.is_finite()).unwrap_or(false) =>
                 {
                     result += 1.0;
                 }
